@@ -31,8 +31,18 @@ class Cond:
         self.fixed = dict(fixed or {})  # concrete (non-symbolic) body arguments of this condition
         self.mirror = list(mirror)  # [(src_prefix, dst_prefix)]: samples often copy src* into dst*
 
+    INT_BOUND = 2 ** 53   # every symbolic int without an explicit range is any value with |v| <= 2**53
+                          # (float64-exact, far inside int64: the model has no int64 wrap-around)
+
     def pre_lines(self):
         out = []
+        for p, kind in self.params:
+            if p in self.ranges:
+                continue
+            if kind == 'int':
+                out.append(f'-{self.INT_BOUND} <= {p} <= {self.INT_BOUND}')
+            elif kind == 'oint':
+                out.append(f'{p} is None or -{self.INT_BOUND} <= {p} <= {self.INT_BOUND}')
         for p, (lo, hi) in self.ranges.items():
             kind = dict(self.params)[p]
             if kind == 'oint':
